@@ -39,17 +39,24 @@ A(ds) == Asc(ds, 1, <<>>)
 (* boundaries of the CBOR bignum byte string, long                           *)
 Ten32 == N!Mul(N!Mul(<<0, 0, 1>>, <<0, 0, 1>>), N!Mul(<<0, 0, 1>>, <<0, 0, 1>>))        \* (10^8)^4 = 10^32
 BigIntMags == { <<>>, One, <<255>>, <<256>>, <<5535, 6>>, <<5536, 6>>, Minus1(Pw(24)), Pw(24), Minus1(Pw(32)), Pw(32),
-                Minus1(Pw(63)), Pw(63), Plus1(Pw(63)), Minus1(Pw(64)), Pw(64), Plus1(Pw(64)), Pw(128), Plus1(Ten32) }
-                \cup (IF Big THEN { Minus1(Pw(56)), Pw(56), Minus1(Pw(184)), Pw(184), Pw(192), N!Mul(Ten32, Plus1(Ten32)) } ELSE {})
+                Minus1(Pw(63)), Pw(63), Plus1(Pw(63)), Minus1(Pw(64)), Pw(64), Plus1(Pw(64)), Pw(128), Plus1(Ten32),
+                \* magnitude byte length on the CBOR length-header boundary: 23 bytes (2^184 - 1; tag 3: -2^184), 24 bytes (2^184 .. 2^192 - 1;
+                \* tag 3: -(2^184 + 1) .. -2^192), 25 bytes (2^192; tag 3: -(2^192 + 1))
+                Minus1(Pw(184)), Pw(184), Plus1(Pw(184)), Pw(191), Minus1(Pw(192)), Pw(192), Plus1(Pw(192)) }
+                \cup (IF Big THEN { Minus1(Pw(56)), Pw(56), N!Mul(Ten32, Plus1(Ten32)) } ELSE {})
 BigIntStrs == { Dec(m) : m \in BigIntMags } \cup { Neg(Dec(m)) : m \in BigIntMags \ {<<>>} }
               \cup { Neg(<<48>>), <<48, 48, 55>> }                                                \* "-0", "007" (not JSON number syntax)
 BigInts == { Tg("bigint", Tx(s)) : s \in BigIntStrs }
+\* 255 / 256 magnitude bytes (one-byte / two-byte length argument)
+LongMags == { Minus1(Pw(2040)), Pw(2040), Plus1(Pw(2040)) }
+LongBigInts == { Tg("bigint", Tx(Dec(m))) : m \in LongMags } \cup { Tg("bigint", Tx(Neg(Dec(m)))) : m \in LongMags }
 
 (* bigdec: [-] ip [. fp] [e [+-] digits]  (integer-looking, fraction,        *)
 (* negative, exponent forms, mantissa beyond 64 bits, huge exponents)        *)
 BD(neg, ip, fp, ex) == (IF neg THEN <<45>> ELSE <<>>) \o ip \o (IF fp = <<>> THEN <<>> ELSE <<46>> \o fp) \o ex
 Ex(ch, sign, ds) == <<ch>> \o sign \o ds
 IPs == { <<48>>, <<49>>, <<49, 48, 48>>, A(<<1, 2, 3, 4, 5>>), Dec(Pw(63)), Dec(Pw(64)), Dec(Plus1(Ten32)) }
+MantBoundary == { Dec(Minus1(Pw(184))), Dec(Pw(184)), Dec(Plus1(Pw(184))), Dec(Minus1(Pw(192))), Dec(Pw(192)), Dec(Plus1(Pw(192))) }      \* 23 / 24 / 25 mantissa bytes
 FPs == { <<>>, <<53>>, <<48, 48, 49>>, <<53, 48>>, Dec(Plus1(Ten32)) }
 SmallExps == { <<>>, Ex(101, <<>>, <<51>>), Ex(69, <<>>, <<51>>), Ex(101, <<43>>, <<51>>), Ex(101, <<45>>, <<51>>), Ex(101, <<>>, <<49, 48, 48>>), Ex(101, <<45>>, <<52, 48, 48>>) }
 HugeExps == { Ex(101, <<>>, Dec(Minus1(Pw(31)))), Ex(101, <<>>, Dec(Pw(31))), Ex(101, <<45>>, Dec(Pw(31))), Ex(101, <<45>>, Dec(Plus1(Pw(31)))),
@@ -60,6 +67,7 @@ BigDecStrs == { BD(neg, ip, fp, ex) : neg \in BOOLEAN, ip \in (IF Big THEN IPs E
                                       ex \in (IF Big THEN SmallExps ELSE {<<>>, Ex(101, <<>>, <<51>>), Ex(69, <<45>>, <<51>>)}) }
               \cup { BD(FALSE, ip, fp, ex) : ip \in {<<49>>, Dec(Pw(64))}, fp \in {<<>>, <<53>>}, ex \in HugeExps }
               \cup { BD(FALSE, <<49>>, <<>>, ex) : ex \in (SmallExps \ {<<>>}) }
+              \cup { BD(neg, ip, fp, <<>>) : neg \in BOOLEAN, ip \in MantBoundary, fp \in {<<>>, <<53>>} }
               \cup { <<46, 53>>, <<49, 46>>, <<43, 49>> }                                         \* ".5" "1." "+1": outside the decimal grammar (dc)
 BigDecs == { Tg("bigdec", Tx(s)) : s \in BigDecStrs }
 
@@ -71,6 +79,7 @@ HExps == { <<>>, Ex(112, <<>>, <<48>>), Ex(112, <<45>>, <<49>>), Ex(112, <<43>>,
            Ex(112, <<>>, A(<<10>>)), Ex(112, <<>>, <<55>> \o Rep(102, 15)), Ex(112, <<45>>, <<56>> \o Rep(48, 15)), Ex(112, <<>>, <<56>> \o Rep(48, 15)) }
 BigFloatStrs == { HF(sign, 120, ip, <<>>, ex) : sign \in {<<>>, <<45>>}, ip \in HIPs, ex \in (IF Big THEN HExps ELSE {<<>>, Ex(112, <<45>>, <<49>>), Ex(112, <<>>, <<49, 48>>)}) }
                 \cup { HF(<<>>, 120, <<49>>, <<>>, ex) : ex \in HExps }
+                \cup { HF(sign, 120, ip, <<>>, Ex(112, <<>>, <<49>>)) : sign \in {<<>>, <<45>>}, ip \in {Rep(102, 46), <<49>> \o Rep(48, 46), Rep(102, 48), <<49>> \o Rep(48, 48)} }   \* 23 / 24 / 25 mantissa bytes
                 \cup { HF(sign, x, ip, fp, ex) : sign \in {<<>>, <<45>>, <<43>>}, x \in {120, 88}, ip \in {<<49>>}, fp \in {<<>>, <<56>>, A(<<0, 8>>)}, ex \in {<<>>, Ex(112, <<>>, <<49>>)} }
 BigFloats == { Tg("bigfloat", Tx(s)) : s \in BigFloatStrs }
 
@@ -173,7 +182,8 @@ SubSecond(tag, base) ==    \* the instant is not a whole number of seconds
                   ELSE tag = "epoch_nano" /\ (N!DivSmall(e[2][2], 1000)[2] # 0 \/ N!DivSmall(N!DivSmall(e[2][2], 1000)[1], 1000)[2] # 0
                                                 \/ N!DivSmall(N!DivSmall(N!DivSmall(e[2][2], 1000)[1], 1000)[1], 1000)[2] # 0))
 LeafDev(tag, base) ==
-  (IF tag = "bigfloat" /\ Contains(base[2], {46}) /\ Contains(base[2], {112, 80}) THEN {"cbor-bigfloat-fraction-exponent"} ELSE {})
+  (IF tag \in EpochTags /\ base[1] = "tstr" THEN {"msgpack-timestamp-string-count"} ELSE {})
+  \cup (IF tag = "bigfloat" /\ Contains(base[2], {46}) /\ Contains(base[2], {112, 80}) THEN {"cbor-bigfloat-fraction-exponent"} ELSE {})
   \cup (IF tag = "bigfloat" /\ base[2] # <<>> /\ base[2][1] = 43 THEN {"cbor-bigfloat-plus-sign"} ELSE {})
   \cup (IF tag = "bigfloat" /\ HexFloat(base[2], 16)[1] = "ok" /\ N!Le(P63, HexFloat(base[2], 16)[3]) THEN {"cbor-bigfloat-bignum-mantissa"} ELSE {})
   \cup (IF tag = "bigdec" /\ DecNum(base[2])[1] = "ok" /\ InInt64(DecNum(base[2])[4]) /\ ~InInt32(DecNum(base[2])[4]) THEN {"cbor-bigdec-exponent-int32"} ELSE {})
@@ -210,6 +220,8 @@ TaCase(a) == [fam |-> "ta", et |-> a[1], el |-> a[2], dev |-> {}]
 Init == c = [fam |-> "none"] /\ depth = 0
 Next == /\ depth = 0 /\ depth' = 1
         /\ \/ \E x \in Leaves, s \in Shapes : c' = ValCase(Shape(s, x))
+           \/ \E x \in BigInts \cup LongBigInts \cup BigDecs \cup BigFloats : c' = ValCase(<<"arr", <<x, U1>>>>)      \* followed by another item: a wrong length header corrupts the rest
+           \/ \E x \in LongBigInts : c' = ValCase(x)
            \/ \E v \in PackFam \cup Pairs : c' = ValCase(v)
            \/ \E a \in TAs : c' = TaCase(a)
 Emit == depth = 1 => PrintT(ToJson(c))
